@@ -4,6 +4,7 @@
 #include "util/OutputPrinter.h"
 #include "util/Queue.h"
 #include "message/Message.h"
+#include "util/NestCount.h"
 
 namespace muscle {
 
@@ -1221,9 +1222,22 @@ bool Message :: BytesMightContainFlattenedMessage(const uint8 * bytes, uint32 nu
    return (numEntries <= maxPossibleEntries);
 }
 
+#ifndef MUSCLE_MAX_MESSAGE_NESTING_DEPTH
+# define MUSCLE_MAX_MESSAGE_NESTING_DEPTH (1024)  ///< we refuse to unflatten Messages nested more deeply than this, to thwart potential stack-overflow attacks based on overly-deep recursions
+#endif
+
+static MUSCLE_THREAD_LOCAL_OR_STATIC NestCount _unflattenNestCount;  // how many levels of sub-Message the current thread's Unflatten()-calls are currently nested
+
 status_t Message :: Unflatten(DataUnflattener & unflat)
 {
    TCHECKPOINT;
+
+   if (_unflattenNestCount.GetCount() >= MUSCLE_MAX_MESSAGE_NESTING_DEPTH)
+   {
+      LogTime(MUSCLE_LOG_DEBUG, "Message %p:  Maximum sub-Message nesting depth (%i) exceeded!\n", this, MUSCLE_MAX_MESSAGE_NESTING_DEPTH);
+      return B_BAD_DATA;
+   }
+   NestCountGuard ncg(_unflattenNestCount);
 
    const uint32 messageProtocolVersion = unflat.ReadInt32();
    if (muscleInRange(messageProtocolVersion, (uint32)OLDEST_SUPPORTED_PROTOCOL_VERSION, (uint32)CURRENT_PROTOCOL_VERSION) == false)
@@ -2213,6 +2227,9 @@ status_t Message :: TemplatedUnflatten(const Message & templateMsg, DataUnflatte
       LogTime(MUSCLE_LOG_ERROR, "TemplatedUnflatten:  Can't unflatten a Message using itself as its own template!\n");
       return B_BAD_DATA;
    }
+
+   if (_unflattenNestCount.GetCount() >= MUSCLE_MAX_MESSAGE_NESTING_DEPTH) return B_BAD_DATA;  // thwart stack-overflow via overly-deep sub-Message nesting
+   NestCountGuard ncg(_unflattenNestCount);
 
    Clear();
 
